@@ -1,6 +1,431 @@
-// E2 executor (controlled scheduling of real request_certificate futures).
+// E2 executor: controlled scheduling of the real request_certificate futures.
+// The scheduler polls the task futures itself with its own wakers and decides, at every visible
+// point (about to acquire a lock / response held by the CA), which task moves next.
+use super::ca::{self, CaServer, Gate};
+use super::sched_impl::{self as si, Status, CV, SCHED};
+use super::{run_reset, with_run};
+use crate::main_event_loop::MainEventLoop;
 use serde_json::{json, Value};
+use std::future::Future;
+use std::pin::Pin;
+use std::sync::Arc;
+use std::task::{Context, Poll, Wake, Waker};
+use std::time::{Duration, Instant};
 
-pub fn run_sched(_req: &Value) -> Value {
-	json!({"ok": false, "machinery_error": "not implemented"})
+struct TaskWaker(usize);
+
+impl Wake for TaskWaker {
+	fn wake(self: Arc<Self>) {
+		self.wake_by_ref()
+	}
+	fn wake_by_ref(self: &Arc<Self>) {
+		si::with(|s| {
+			if self.0 < s.woken.len() {
+				s.woken[self.0] = true;
+			}
+		});
+		CV.notify_all();
+	}
+}
+
+type TaskFut<'a> = Pin<Box<dyn Future<Output = Result<(), acme_common::error::Error>> + 'a>>;
+
+enum Visible {
+	Done,
+	Point,
+	Timeout,
+	Panic(String),
+}
+
+fn run_to_visible(i: usize, futs: &mut [Option<TaskFut>], results: &mut [Option<Value>], wait_ms: u64) -> Visible {
+	loop {
+		si::with(|s| {
+			s.current = i;
+			s.woken[i] = false;
+			if !matches!(s.status[i], Status::WaitingWrite(_)) {
+				s.status[i] = Status::Run;
+			}
+		});
+		let waker = Waker::from(Arc::new(TaskWaker(i)));
+		let mut cx = Context::from_waker(&waker);
+		let polled = {
+			let f = futs[i].as_mut().unwrap();
+			std::panic::catch_unwind(std::panic::AssertUnwindSafe(|| f.as_mut().poll(&mut cx)))
+		};
+		match polled {
+			Err(_) => {
+				futs[i] = None;
+				si::with(|s| s.status[i] = Status::Done);
+				let msg = super::take_panic().unwrap_or_else(|| "panic".into());
+				results[i] = Some(json!({"panic": msg}));
+				return Visible::Panic(msg);
+			}
+			Ok(Poll::Ready(r)) => {
+				futs[i] = None;
+				si::with(|s| s.status[i] = Status::Done);
+				results[i] = Some(match r {
+					Ok(_) => json!({"ok": true}),
+					Err(e) => json!({"ok": false, "err": e.message}),
+				});
+				return Visible::Done;
+			}
+			Ok(Poll::Pending) => {}
+		}
+		if let Some(true) = si::with(|s| matches!(s.status[i], Status::AtAcquire(_, _) | Status::WaitingWrite(_))) {
+			return Visible::Point;
+		}
+		// invisible step in progress: wait for the task's waker or for a response to be held
+		let deadline = Instant::now() + Duration::from_millis(wait_ms);
+		let mut g = SCHED.lock().unwrap_or_else(|e| e.into_inner());
+		loop {
+			let s = match g.as_mut() {
+				Some(s) => s,
+				None => return Visible::Timeout,
+			};
+			if !s.held.is_empty() {
+				let (_, cp) = s.held.remove(0);
+				s.status[i] = Status::RespHeld(cp);
+				return Visible::Point;
+			}
+			if s.woken[i] {
+				break;
+			}
+			let now = Instant::now();
+			if now >= deadline {
+				return Visible::Timeout;
+			}
+			let (ng, _) = CV
+				.wait_timeout(g, (deadline - now).min(Duration::from_millis(200)))
+				.unwrap_or_else(|e| e.into_inner());
+			g = ng;
+		}
+	}
+}
+
+pub fn run_sched(req: &Value) -> Value {
+	let t_wall = Instant::now();
+	let script: Vec<Value> = req.get("script").and_then(|v| v.as_array()).cloned().unwrap_or_default();
+	run_reset(script);
+	with_run(|r| r.observe_files = false);
+	let schedule: Vec<usize> = req
+		.get("schedule")
+		.and_then(|v| v.as_array())
+		.map(|a| a.iter().filter_map(|x| x.as_u64().map(|v| v as usize)).collect())
+		.unwrap_or_default();
+	let max_steps = req.get("max_steps").and_then(|v| v.as_u64()).unwrap_or(2000) as usize;
+	let wait_ms = req.get("wait_ms").and_then(|v| v.as_u64()).unwrap_or(15000);
+	let dir = super::scenario::make_scratch();
+	let gate: Gate = Arc::new(|ca_name: &str, cp: usize| {
+		if !si::ACTIVE.load(std::sync::atomic::Ordering::SeqCst) {
+			return;
+		}
+		let mut g = SCHED.lock().unwrap_or_else(|e| e.into_inner());
+		match g.as_mut() {
+			Some(s) => s.held.push((ca_name.to_string(), cp)),
+			None => return,
+		}
+		CV.notify_all();
+		loop {
+			match g.as_ref() {
+				None => return,
+				Some(s) if s.released.contains(&cp) => return,
+				_ => {}
+			}
+			let (ng, _) = CV.wait_timeout(g, Duration::from_millis(200)).unwrap_or_else(|e| e.into_inner());
+			g = ng;
+		}
+	});
+	let mut cas: Vec<CaServer> = vec![];
+	if let Some(a) = req.get("cas").and_then(|v| v.as_array()) {
+		for (i, cfg) in a.iter().enumerate() {
+			let name = ca::cfg_str(cfg, "name", &format!("ca{i}"));
+			cas.push(CaServer::start(&name, cfg, None, Some(gate.clone())));
+		}
+	}
+	let rt = tokio::runtime::Builder::new_multi_thread()
+		.worker_threads(2)
+		.enable_all()
+		.build()
+		.unwrap();
+	let _enter = rt.enter();
+	let write_files = |files: &serde_json::Map<String, Value>| {
+		for (rel, content) in files {
+			let mut s = content.as_str().unwrap_or("").replace("@DIR@", &dir);
+			for (i, c) in cas.iter().enumerate() {
+				s = s.replace(&format!("@CA{i}@"), &format!("{}/dir", c.base));
+			}
+			let p = std::path::Path::new(&dir).join(rel);
+			if let Some(parent) = p.parent() {
+				let _ = std::fs::create_dir_all(parent);
+			}
+			let _ = std::fs::write(&p, s);
+		}
+	};
+	// optional warm-up with another configuration, unscheduled (registers accounts, issues once)
+	if let Some(o) = req.get("warmup_files").and_then(|v| v.as_object()) {
+		write_files(o);
+		let config = format!("{dir}/main.toml");
+		let warm = rt.block_on(async {
+			let mut srv = MainEventLoop::new(&config, &[]).await.map_err(|e| e.message)?;
+			let (certs, accounts, endpoints) = srv.verif_parts();
+			let mut ids: Vec<String> = certs.keys().cloned().collect();
+			ids.sort();
+			for id in ids {
+				let c = &certs[&id];
+				crate::acme_proto::request_certificate(c, accounts[&c.account_name].clone(), endpoints[&c.endpoint_name].clone())
+					.await
+					.map_err(|e| e.message)?;
+			}
+			Ok::<(), String>(())
+		});
+		if let Err(e) = warm {
+			for c in cas.iter() {
+				c.shutdown();
+			}
+			let _ = std::fs::remove_dir_all(&dir);
+			return json!({"ok": false, "machinery_error": format!("warm-up failed: {e}")});
+		}
+		if let Some(ops) = req.get("after_warmup").and_then(|v| v.as_array()) {
+			for op in ops {
+				if op.get("op").and_then(|v| v.as_str()) == Some("ca_forget") {
+					let i = op.get("ca").and_then(|v| v.as_u64()).unwrap_or(0) as usize;
+					let mut st = cas[i].state.lock().unwrap();
+					for a in st.accts.iter_mut() {
+						a.known = false;
+					}
+				}
+			}
+		}
+		super::log_event(json!({"ev": "warmup_done"}));
+	}
+	// configuration files (same placeholders as the E1 executor; no hooks, hence no controller)
+	if let Some(o) = req.get("files").and_then(|v| v.as_object()) {
+		write_files(o);
+	}
+	if false {
+		let o: serde_json::Map<String, Value> = Default::default();
+		for (rel, content) in o.iter() {
+			let mut s = content.as_str().unwrap_or("").replace("@DIR@", &dir);
+			for (i, c) in cas.iter().enumerate() {
+				s = s.replace(&format!("@CA{i}@"), &format!("{}/dir", c.base));
+			}
+			let p = std::path::Path::new(&dir).join(rel);
+			if let Some(parent) = p.parent() {
+				let _ = std::fs::create_dir_all(parent);
+			}
+			let _ = std::fs::write(&p, s);
+		}
+	}
+	let config = format!("{dir}/main.toml");
+	// loading happens with the scheduler inactive: the CA gate lets everything through
+	let mut srv = match rt.block_on(MainEventLoop::new(&config, &[])) {
+		Ok(s) => s,
+		Err(e) => {
+			for c in cas.iter() {
+				c.shutdown();
+			}
+			let _ = std::fs::remove_dir_all(&dir);
+			return json!({"ok": false, "machinery_error": format!("configuration does not load: {}", e.message)});
+		}
+	};
+	let mut out = json!({"ok": true});
+	let (certs, accounts, endpoints) = srv.verif_parts();
+	let mut lock_names = std::collections::HashMap::new();
+	for (n, a) in accounts.iter() {
+		lock_names.insert(a.verif_id(), format!("account:{n}"));
+	}
+	for (n, e) in endpoints.iter() {
+		lock_names.insert(e.verif_id(), format!("endpoint:{n}"));
+	}
+	let mut ids: Vec<String> = certs.keys().cloned().collect();
+	ids.sort();
+	let n = ids.len();
+	let mut futs: Vec<Option<TaskFut>> = vec![];
+	for id in ids.iter() {
+		let c = &certs[id];
+		let acc = accounts[&c.account_name].clone();
+		let ept = endpoints[&c.endpoint_name].clone();
+		futs.push(Some(Box::pin(crate::acme_proto::request_certificate(c, acc, ept))));
+	}
+	let mut results: Vec<Option<Value>> = vec![None; n];
+	si::start(n);
+	let mut decisions: Vec<Value> = vec![];
+	let mut traces: Vec<Vec<String>> = vec![vec![]; n];
+	let mut verdict = "completed";
+	let mut detail = String::new();
+	// bring every task to its first visible point
+	'main: {
+		for i in 0..n {
+			match run_to_visible(i, &mut futs, &mut results, wait_ms) {
+				Visible::Timeout => {
+					verdict = "timeout";
+					detail = format!("task {i} made no progress while reaching its first visible point");
+					break 'main;
+				}
+				Visible::Panic(m) => {
+					verdict = "panic";
+					detail = m;
+					break 'main;
+				}
+				_ => {}
+			}
+		}
+		let mut last: Option<usize> = None;
+		let mut step = 0usize;
+		loop {
+			// enabled tasks in canonical order
+			let (enabled, descr, unfinished): (Vec<usize>, Vec<String>, usize) = si::with(|s| {
+				let mut en = vec![];
+				let mut unfinished = 0;
+				for t in 0..n {
+					let e = match &s.status[t] {
+						Status::AtAcquire(id, w) => {
+							unfinished += 1;
+							si::acquirable(s, *id, *w)
+						}
+						Status::RespHeld(_) => {
+							unfinished += 1;
+							true
+						}
+						Status::WaitingWrite(id) => {
+							unfinished += 1;
+							si::writer_can_enter(s, *id)
+						}
+						Status::Run => {
+							unfinished += 1;
+							false
+						}
+						Status::Done => false,
+					};
+					if e {
+						en.push(t);
+					}
+				}
+				if let Some(l) = last {
+					if let Some(p) = en.iter().position(|x| *x == l) {
+						en.remove(p);
+						en.insert(0, l);
+					}
+				}
+				let d = en
+					.iter()
+					.map(|t| match &s.status[*t] {
+						Status::AtAcquire(id, w) => format!(
+							"{t}:{}:{}",
+							if *w { "write" } else { "read" },
+							lock_names.get(id).cloned().unwrap_or_else(|| format!("lock{id}"))
+						),
+						Status::RespHeld(cp) => format!("{t}:resp:{cp}"),
+						Status::WaitingWrite(id) => format!(
+							"{t}:enter-write:{}",
+							lock_names.get(id).cloned().unwrap_or_else(|| format!("lock{id}"))
+						),
+						_ => format!("{t}:?"),
+					})
+					.collect();
+				(en, d, unfinished)
+			})
+			.unwrap();
+			if unfinished == 0 {
+				break;
+			}
+			if enabled.is_empty() {
+				verdict = "deadlock";
+				detail = si::with(|s| {
+					(0..n)
+						.map(|t| match &s.status[t] {
+							Status::AtAcquire(id, w) => format!(
+								"task {t} ({}) waits for {} on {} held by {:?}",
+								ids[t],
+								if *w { "write" } else { "read" },
+								lock_names.get(id).cloned().unwrap_or_default(),
+								s.holders.get(id)
+							),
+							Status::WaitingWrite(id) => format!(
+								"task {t} ({}) has announced a write on {} and waits for its readers {:?}",
+								ids[t],
+								lock_names.get(id).cloned().unwrap_or_default(),
+								s.holders.get(id)
+							),
+							st => format!("task {t}: {st:?}"),
+						})
+						.collect::<Vec<String>>()
+						.join("; ")
+				})
+				.unwrap_or_default();
+				break;
+			}
+			if step >= max_steps {
+				verdict = "step-horizon";
+				break;
+			}
+			let choice = if step < schedule.len() { schedule[step] } else { 0 };
+			if choice >= enabled.len() {
+				verdict = "schedule-divergence";
+				detail = format!("step {step}: choice {choice} but only {} task(s) enabled", enabled.len());
+				break;
+			}
+			let t = enabled[choice];
+			decisions.push(json!({"step": step, "enabled": descr, "choice": choice, "task": t}));
+			traces[t].push(descr[choice].splitn(2, ':').nth(1).unwrap_or("").to_string());
+			si::with(|s| match s.status[t].clone() {
+				Status::AtAcquire(_, _) => {
+					s.yield_pass[t] = true;
+				}
+				Status::RespHeld(cp) => {
+					s.released.push(cp);
+				}
+				_ => {}
+			});
+			CV.notify_all();
+			last = Some(t);
+			step += 1;
+			match run_to_visible(t, &mut futs, &mut results, wait_ms) {
+				Visible::Timeout => {
+					verdict = "timeout";
+					detail = format!("task {t} made no progress for {wait_ms} ms after step {step}");
+					break;
+				}
+				Visible::Panic(m) => {
+					verdict = "panic";
+					detail = m;
+					break;
+				}
+				_ => {}
+			}
+		}
+	}
+	let unexpected = si::with(|s| s.blocked_unexpected.clone()).unwrap_or_default();
+	si::stop();
+	drop(futs);
+	// end state
+	let mut ca_states = vec![];
+	for c in cas.iter() {
+		let st = c.state.lock().unwrap_or_else(|e| e.into_inner());
+		ca_states.push(json!({
+			"name": st.name,
+			"accounts": st.accts.iter().map(|a| json!({"id": a.id, "thumb": a.thumb, "registrations": a.registrations, "known": a.known})).collect::<Vec<Value>>(),
+			"orders": st.orders.iter().map(|o| json!({"id": o.id, "acct": o.acct, "status": o.status})).collect::<Vec<Value>>(),
+		}));
+	}
+	for c in cas.iter() {
+		c.shutdown();
+	}
+	drop(srv);
+	drop(_enter);
+	rt.shutdown_background();
+	let (events, cps) = with_run(|r| (std::mem::take(&mut r.events), std::mem::take(&mut r.cps))).unwrap_or_default();
+	out["verdict"] = json!(verdict);
+	out["detail"] = json!(detail);
+	out["tasks"] = json!(ids);
+	out["results"] = json!(results);
+	out["decisions"] = json!(decisions);
+	out["traces"] = json!(traces);
+	out["events"] = json!(events);
+	out["cps"] = json!(cps);
+	out["cas"] = json!(ca_states);
+	out["blocked_unexpected"] = json!(unexpected);
+	out["wall_ms"] = json!(t_wall.elapsed().as_millis() as u64);
+	let _ = std::fs::remove_dir_all(&dir);
+	out
 }
